@@ -20,6 +20,7 @@ import (
 	"net/url"
 	"runtime"
 	"strings"
+	"sync/atomic"
 	"time"
 
 	"github.com/gorilla/websocket"
@@ -115,8 +116,16 @@ func (c *replyConn) Read(p []byte) (int, error) {
 }
 
 // RunHsFuzz executes one batch.
+// hsHung is set once a batch did not terminate: the goroutine of that batch keeps
+// spinning (it cannot be killed), so the remaining batches of this process are
+// skipped (their traces say so); the hang itself is reported by its own trace.
+var hsHung int32
+
 func RunHsFuzz(p *HProg) []Ev {
 	evs := []Ev{{"e": "Reset", "tid": p.ID, "prog": p.Abs}}
+	if atomic.LoadInt32(&hsHung) != 0 {
+		return append(evs, Ev{"e": "Skipped"})
+	}
 	pre, _ := hex.DecodeString(p.Pre)
 	suf, _ := hex.DecodeString(p.Suf)
 	reps := make([][][]byte, len(p.Reps))
@@ -197,7 +206,8 @@ func RunHsFuzz(p *HProg) []Ev {
 	select {
 	case out := <-done:
 		evs = append(evs, out...)
-	case <-time.After(120 * time.Second):
+	case <-time.After(30 * time.Second):
+		atomic.StoreInt32(&hsHung, 1)
 		evs = append(evs, Ev{"e": "HANG"})
 	}
 	return evs
